@@ -591,10 +591,10 @@ class Gen:
             return self.expr(a[0], env, kr)
         if recv == ("path", ["expr"]) and name == "contains" and len(a) == 1 and a[0][0] == "chr":
             return k("(existsb (fun c => c =? %d) expr)" % ord(a[0][1]), "bool", env)
-        if recv == ("path", ["token"]) and name == "starts_with" and len(a) == 1 and a[0][0] == "chr":
-            return k("(g_starts_with token %d)" % ord(a[0][1]), "bool", env)
 
         def kr(t, ty, env):
+            if name == "starts_with" and ty == "str" and len(a) == 1 and a[0][0] == "chr":
+                return k("(g_starts_with %s %d)" % (t, ord(a[0][1])), "bool", env)
             if name == "into_int" and ty == "winval" and a == [("ref", ("path", ["vars"]))]:
                 return k("(into_int %s %s)" % (env["vars"][0], t), ("opt", "u32"), env)
             if name == "into_var" and ty == "winval" and not a:
